@@ -36,12 +36,13 @@ import numpy as np, verif_probes as VP
 from pyxel.pipelines import DetectionPipeline, ModelFunction, Processor
 from pyxel.exposure import Readout, run_pipeline
 VIOLATED, DETAIL = False, ''
-for wic, narrow in ((False, None), (True, None), (False, 2), (True, 1)):      # narrow: the float buckets are written in single precision from that step on
+# narrow: the float buckets are written in single precision from that step on; dark: steps in which no charge is generated (destructive readout: the bucket is all zero there)
+for wic, narrow, dark in ((False, None, None), (True, None, None), (False, 2, None), (True, 1, None), (False, None, [1]), (True, None, [0, 2])):
     VP.LOG.clear()
     det = VP.detector()
-    pipe = DetectionPipeline(photon_collection=[ModelFunction(func='verif_probes.stamp', name='stamp', arguments={'narrow_from': narrow})])
+    pipe = DetectionPipeline(photon_collection=[ModelFunction(func='verif_probes.stamp', name='stamp', arguments={'narrow_from': narrow, 'dark_steps': dark})])
     times, start = [1.0, 2.5, 4.0], 0.5
-    r = run_pipeline(processor=Processor(detector=det, pipeline=pipe), readout=Readout(times=times, start_time=start, non_destructive=True), outputs=None, debug=False, with_inherited_coords=wic)
+    r = run_pipeline(processor=Processor(detector=det, pipeline=pipe), readout=Readout(times=times, start_time=start, non_destructive=dark is None), outputs=None, debug=False, with_inherited_coords=wic)
     node = r['/bucket'] if wic else r
     for name in ('photon', 'pixel', 'signal', 'image', 'charge'):
         da = node[name]
@@ -50,7 +51,7 @@ for wic, narrow in ((False, None), (True, None), (False, 2), (True, 1)):      # 
         for i in range(3):
             exp = VP.STAMPS[i][name]
             if not np.array_equal(np.asarray(da.isel(time=i), dtype=np.float64), np.asarray(exp, dtype=np.float64)) or (name == 'image' and da.dtype != exp.dtype):
-                VIOLATED, DETAIL = True, f'{name} slice {i}: {np.asarray(da.isel(time=i)).ravel()[:3]} dtype {da.dtype}, detector held {exp.ravel()[:3]} dtype {exp.dtype}'; break
+                VIOLATED, DETAIL = True, f'{name} slice {i} (steps without charge: {dark}): {np.asarray(da.isel(time=i)).ravel()[:3]} dtype {da.dtype}, detector held {exp.ravel()[:3]} dtype {exp.dtype}'; break
         if VIOLATED: break
         if list(da['y'].values) != [0, 1, 2] or list(da['x'].values) != [0, 1, 2, 3]:
             VIOLATED, DETAIL = True, f'{name}: row/column labels {list(da["y"].values)} {list(da["x"].values)}'; break
@@ -189,6 +190,13 @@ def val_eq(a, b):
     return to_real(a) == to_real(b)
 
 
+# Detector.to_xarray as a CALLEE (its own unit `detector.to_xarray` proves this): a dataset with an entry for every initialised bucket EXCEPT
+# that an all-zero charge is left out -- i.e. not "all five buckets": the entries it made are not visible to the caller as its own
+SNAP_Q = "pyxel/detectors/detector.py::Detector.to_xarray"
+SNAPSHOT = Contract(SNAP_Q, lambda ex, args, kwargs, fr: (ex.st.events.append(("snapshot", args[0])), VOpaque("xr", ex.st.fresh_int("ds"), {"label": "detector_snapshot", "of_detector": args[0]}))[1],
+                    "C03.detector.to_xarray: every initialised bucket, an all-zero charge left out")
+
+
 @unit("C03", "extract")
 def extract(u: Unit):
     fi = u.fn(f"{EX}::_extract_datatree_2d")
@@ -203,6 +211,7 @@ def extract(u: Unit):
         return apply
     for q in ("pyxel/data_structure/array.py::ArrayBase.to_xarray", DS + "photon.py::Photon.to_xarray", DS + "charge.py::Charge.to_xarray"):
         cfg.contracts[q] = Contract(q, lambda ex, args, kwargs, fr: mk_tx("?")(ex, args, kwargs, fr), "C03.to_xarray")
+    cfg.contracts[SNAP_Q] = SNAPSHOT
     T_, S_ = z3.Real("time_now"), z3.Real("start_time")
 
     def setup(ex):
@@ -250,6 +259,7 @@ def loop(u: Unit):
     # the per-step extraction helper is INLINED here (its own unit proves it in isolation): whatever its signature, the step's
     # dataset must be labelled with the absolute time of THIS step
     cfg.contracts.pop(f"{EX}::_extract_datatree_2d", None)
+    cfg.contracts[SNAP_Q] = SNAPSHOT
     for q in ("pyxel/data_structure/array.py::ArrayBase.to_xarray", DS + "photon.py::Photon.to_xarray", DS + "charge.py::Charge.to_xarray"):
         cfg.contracts[q] = Contract(q, lambda ex, args, kwargs, fr: VOpaque("xr", ex.st.fresh_int("da"), {"label": "dataarray", "from": args[0]}), "C03.to_xarray")
 
